@@ -145,6 +145,8 @@ QuiescentViol(inlen, blocked) ==
                 \cup (IF b.k = "write" /\ (o.peerClosed \/ o.localClose \/ b.n = 0 \/ o.peerPending = 0) THEN {"C08.flusher_blocked_for_ever"} ELSE {})
                 \cup (IF b.k = "until" /\ (b.n = 1 \/ o.peerClosed \/ o.localClose) THEN {"C04.line_reader_blocked_with_delimiter_buffered"} ELSE {})
                 \cup (IF b.k = "spin" THEN {"C05.goroutine_spinning_for_ever"} ELSE {})
+                \* Close never blocks, whatever the other goroutines are doing
+                \cup (IF b.g \in {"closer1", "closer2", "closer3"} /\ b.k # "harness" THEN {"C12.close_call_never_returned"} ELSE {})
                 \cup (IF b.k = "timerdrain" THEN {"C07.reader_stuck_draining_timer"} ELSE {}) : b \in blocked}
 
 -----------------------------------------------------------------------------
